@@ -55,6 +55,20 @@ def classify(v):
     reports its end-of-input error at offset 0 instead of inside [k, k+len]."""
     if v["what"] == "parse-error-offset" and v["offset"] > 0 and v["detail"].startswith("Eof at 0 ") and v["detail"].endswith("ntok=0"):
         return "eof-error-offset-not-translated-for-token-less-input"
+    # Known deviation (same root as C02's fstring-crlf-shifts-inner-ranges): the string parser works on the literal's
+    # value in which CRLF is already folded to LF, so an error it reports after a CRLF inside a (triple-quoted) literal
+    # is located one byte too far left per CRLF and can fall inside a multi-byte character.
+    if v["what"] in ("parse-error-offset", "lex-error-offset"):
+        import re
+        m = re.search(r" at (\d+)", v["detail"])
+        b = bytes.fromhex(v["input"])
+        if m and b"\r\n" in b:
+            rel = int(m.group(1)) - v["offset"]
+            if 0 <= rel <= len(b):
+                for k in range(1, b[:rel + 8].count(b"\r\n") + 1):
+                    o = rel + k
+                    if o <= len(b) and (o == len(b) or (b[o] & 0xC0) != 0x80) and b"\r\n" in b[:o] and (b"'''" in b[:o] or b'"""' in b[:o]):
+                        return "string-error-offset-shifted-left-per-crlf-inside-literal"
     return "unlisted:" + v["what"]
 
 
